@@ -169,6 +169,8 @@ def run(prog, chk):
             chk.ok("R15.3", "pure:" + fn, "%d workspace bodies reachable; no mutable static / thread-local / env / clock / fs access" % len([n for n in reach if prog.body(n) is not None]), function=fn)
     chk.note("bodies_in_purity_closure", nb)
     completeness_prefix_rule(prog, chk)
+    chk.rule("R15.5", "every memo key is reached from the parameters through identity conversions only (the key is an injective image of the inputs)")
+    lossless_key_rule(prog, chk, "R15.5")
 
 
 PREFIX_PRESERVING = ("strip_suffix", "trim_end", "trim_end_matches", "trim_right", "trim_right_matches", "strip_suffix_of", "as_str", "as_ref", "deref",
@@ -231,3 +233,39 @@ def completeness_prefix_rule(prog, chk):
                 chk.ok("R15.4", "prefix:%s:%s" % (fn.rsplit("::", 1)[-1], "+".join(sorted(v.rsplit("::", 1)[-1] for v in vias)) or "input"),
                        "parsed text is parameter `%s`%s" % (b.local_name(roots[0].node), " with only suffix-stripping on the way" if vias else ""), function=fn)
     chk.floor("R15.4", "parses inside the completeness decision", n, 2)
+
+
+IDENTITY_CONVERSIONS = ("to_owned", "to_string", "clone", "into", "from", "as_ref", "as_str", "borrow", "deref", "to_vec", "as_bytes", "into_owned",
+                        "as_deref", "clone_from", "to_path_buf", "as_path", "new", "default")
+
+
+def lossless_key_rule(prog, chk, rid, only=None):
+    """a memo key is an *injective* image of the parameters: on the way from a parameter to the key only identity conversions are
+    passed (to_owned / clone / to_string / as_ref …). A key computed by a lossy function of the input (trim, split+collect, lowercase,
+    hash, …) makes two different inputs share one cached result."""
+    n = 0
+    for b in prog.all_bodies(SHIPPED):
+        gets = [(bb, t) for bb, t in b.calls() if (t.callee or "").endswith(("Cached::cache_get", "Cached::cache_set", "Cached::set"))]
+        if not gets:
+            continue
+        root = _memo_root(prog, b)
+        fn = owner(root.name)
+        if only is not None and not only(fn):
+            continue
+        d = defs_of(b)
+        for bb, t in gets:
+            if len(t.args) < 2:
+                continue
+            n += 1
+            flows = flow_back(b, d, t.args[1], all_args=True)
+            lossy = sorted({v for f in flows for v in f.via
+                            if v.rsplit("::", 1)[-1] not in IDENTITY_CONVERSIONS and not v.endswith(("Clone>::clone", "ToOwned>::to_owned", "ToString>::to_string"))
+                            and not v.startswith(("core::ops::deref", "<alloc::string::String as core::ops::deref"))})
+            # tuple / struct construction of several parameters is fine (agg), calls are what can lose information
+            if lossy:
+                chk.fail(rid, fn, "lossy-memo-key:" + lossy[0].rsplit("::", 1)[-1],
+                         "the memo key of %s is computed through %s: inputs that this function maps to the same key share one cached result although they parse differently"
+                         % (fn, ", ".join(x.rsplit("::", 2)[-1] if "::" in x else x for x in lossy[:3])))
+            else:
+                chk.ok(rid, "identity-key:%s:%s" % (fn.rsplit("::", 1)[-1], (t.callee or "").rsplit("::", 1)[-1]), "key reached through identity conversions only", function=fn)
+    chk.floor(rid, "memo key operands examined", n, 1)
